@@ -202,7 +202,9 @@ func (s *MemCachedStore) prepareSeekMemSnapshot(rng SeekRange) (Store, []KeyValu
 	}
 	if rng.Backwards {
 		isKeyOK = func(key string) bool {
-			return strings.HasPrefix(key, sPrefix) && (lStart == 0 || cmp.Compare(key[lPrefix:], sStart) <= 0)
+			// Keys extending the start point are included too, the same way
+			// persistent backends do that (see seekRangeToPrefixes).
+			return strings.HasPrefix(key, sPrefix) && (lStart == 0 || cmp.Compare(key[lPrefix:], sStart) <= 0 || strings.HasPrefix(key[lPrefix:], sStart))
 		}
 	}
 	s.rlock()
